@@ -137,10 +137,57 @@ def _asym_split(rng):
     components are re-merged depends on where the base level sits inside the fluffy deck, i.e. on
     BASE_LVL_HEIGHT_PERC / BASE_LVL_LOOKBACK_PERC at decision time."""
     h = rng.choice([900, 1500, 2400])
-    gap = rng.randint(280, 420)
+    gap = rng.randint(280, 480)
     decks = [(h, rng.choice([8, 15]), 0.9), (h + gap, rng.choice([70, 90, 110]), 0.9),
              (h + 7000, 40, 0.4)]
     return {'rows': decks_rows(rng, 2, rng.randint(28, 42), decks), 'prms': {}}
+
+
+def _two_valued(rng):
+    """Coarse-resolution ceilometers: a thick low deck of three sub-layers (the mixture model
+    picks three components) under a flat deck reported at exactly two distinct heights."""
+    h = rng.choice([800, 1200])
+    res = rng.choice([50, 100])
+    rows = decks_rows(rng, 2, rng.randint(30, 40),
+                      [(h, 25, 0.85), (h + 300, 25, 0.85), (h + 600, 25, 0.85), (6000, 0, 0.95)],
+                      max_types=4)
+    k = 0
+    for r in rows:
+        if r[2] is not None and r[2] > 5000:
+            r[2] = 6000.0 + (res if k % 2 else 0)
+            k += 1
+    return {'rows': rows, 'prms': {}}
+
+
+def _high_close(rng):
+    """Three thin decks inside one 1000-ft reporting step above 10 000 ft: the message carries
+    the same code more than once (FEWxxx BKNxxx BKNxxx)."""
+    h = rng.choice([12100, 14050, 11080])
+    decks = [(h, 8, rng.choice([0.15, 0.2])), (h + 300, 8, rng.choice([0.6, 0.7])),
+             (h + 700, 8, rng.choice([0.6, 0.7]))]
+    return {'rows': decks_rows(rng, 1, rng.randint(40, 60), decks),
+            'prms': {'MIN_SEP_VALS': [250, 250]}}
+
+
+QUANTISABLE = ('single', 'two-far', 'split', 'demo-like', 'multi-hit', 'msa-crop', 'many-sets',
+               'asym-split', 'vv', 'sparse')
+
+
+def quantise(scene, res):
+    """Heights as a coarse-resolution ceilometer reports them (multiples of res ft)."""
+    for r in scene['rows']:
+        if r[2] is not None:
+            r[2] = float(max(res, round(r[2] / res) * res))
+    # coincident hits of one ceilometer may now be identical: keep one
+    seen, rows = set(), []
+    for r in scene['rows']:
+        key = (r[0], r[1], r[2])
+        if r[2] is not None and key in seen:
+            continue
+        seen.add(key)
+        rows.append(r)
+    scene['rows'] = rows
+    return scene
 
 
 def _no_hit(rng):
@@ -216,7 +263,7 @@ def _demo_like(rng):
 RECIPES = {
     'single': _single, 'two-far': _two_far, 'merge': _merge, 'split': _split,
     'merge+split': _merge_split, 'rng-sensitive': _rng_sensitive, 'borderline': _borderline,
-    'asym-split': _asym_split,
+    'asym-split': _asym_split, 'two-valued': _two_valued, 'high-close': _high_close,
     'no-hit': _no_hit,
     'single-hit': _single_hit, 'sparse': _sparse, 'vv': _vv, 'msa-crop': _msa_crop,
     'multi-hit': _multi_hit, 'many-sets': _many_sets, 'demo-like': _demo_like,
@@ -237,6 +284,9 @@ def twin_scene(rng, scene: dict) -> dict:
 def gen_scene(rng, cls: str) -> dict:
     out = RECIPES[cls](rng)
     out['cls'] = cls
+    if cls in QUANTISABLE and rng.random() < 0.25:
+        quantise(out, rng.choice([50, 100]))
+        out['quantised'] = True
     return out
 
 
